@@ -33,7 +33,9 @@ def shards(tier, seed):
         out.append(("det_%s" % c.name, dict(kind="det", cname=c.name, count=5 if q else 40)))
     ts = sigs.toy_prime_curves(5, 31 if q else 61)
     lt = [t for t in ts if t.N < t.curve.p]
-    sel = (lt[:: max(1, len(lt) // 3)][:3] + ts[:2]) if q else (lt[:: max(1, len(lt) // 8)][:8] + ts[:: max(1, len(ts) // 6)][:6])
+    # curves with a point whose x is a NON-ZERO multiple of n: there r = 0 arises only after the reduction mod n
+    xn = [t for t in lt if any(P[0] and P[0] % t.N == 0 for P in t.pts)]
+    sel = (xn[:: max(1, len(xn) // 3)][:3] + lt[:1] + ts[:2]) if q else (xn[:: max(1, len(xn) // 8)][:8] + lt[:4] + ts[:: max(1, len(ts) // 6)][:6])
     for t in sel:
         out.append(("toy_%d_%d_%d" % t.curve.key(), dict(kind="toy", key=t.curve.key(), ndig=48 if q else 256)))
     return out
@@ -144,6 +146,21 @@ def run(ctx, name, kind, **kw):
             _det_call(ctx, "det.value", "%s|%s|%s|x%d" % (c.name, hname, encname, len(extra)), c, d, hname,
                       lambda: sk.sign_deterministic(msg, sigencode=enc, extra_entropy=extra), fmt, n, want,
                       "sk.sign_deterministic(%r, hashfunc=H, sigencode=util.sigencode_%s, extra_entropy=%r)" % (msg, encname, extra))
+            # the digest handed over in bytes-like containers, including ones whose items are wider than a byte
+            import array
+            for dl in (L + 2, 2 * L - 2, L):
+                dl += dl % 4 and (4 - dl % 4)
+                dg3 = bytes(rng.getrandbits(8) for _ in range(dl))
+                e3 = ecdsa_ref.digest_to_e(dom, dg3, True)
+                want3 = _ref_det(dom, d, hf, dg3, e3, extra)
+                for cont_name, cont in (("bytearray", bytearray(dg3)), ("memoryview", memoryview(dg3)), ("array_B", array.array("B", dg3)),
+                                        ("array_H", array.array("H", dg3)), ("array_I", array.array("I", dg3)), ("memoryview_array_I", memoryview(array.array("I", dg3)))):
+                    if array.array("I").itemsize != 4 and "I" in cont_name:
+                        continue
+                    _det_call(ctx, "det.value", "%s|%s|container|%s|dl%+d" % (c.name, hname, cont_name, dl - L), c, d, hname,
+                              lambda: sk.sign_digest_deterministic(cont, hashfunc=hf, sigencode=enc, extra_entropy=extra, allow_truncate=True), fmt, n, want3,
+                              "sk.sign_digest_deterministic(__import__('array').array('I', %r), hashfunc=H, sigencode=util.sigencode_%s, extra_entropy=%r, allow_truncate=True)" % (dg3, encname, extra)
+                              if cont_name == "array_I" else None)
             # sign_digest_deterministic with digests shorter / longer than the order
             for dl in (L - 1, L, L + 1, 2 * L, 1):
                 if dl <= 0:
